@@ -87,7 +87,7 @@ func showBig(v *big.Int) string { b := make([]byte, 32); v.FillBytes(b); return 
 func montP(v *big.Int) limbs { return bigToLimbs(new(big.Int).Mod(new(big.Int).Mul(v, bigR), bigP)) }
 func montN(v *big.Int) limbs { return bigToLimbs(new(big.Int).Mod(new(big.Int).Mul(v, bigR), bigN)) }
 
-func kv(k, v string) string { return k + "=" + v }
+func kv(k, v string) string    { return k + "=" + v }
 func join(xs ...string) string { return strings.Join(xs, " ") }
 func b2s(b bool) string {
 	if b {
@@ -162,8 +162,8 @@ func proj(p apt, lambda *big.Int) rawPt {
 	return rawPt{montP(modP(new(big.Int).Mul(p.x, lambda))), montP(modP(new(big.Int).Mul(p.y, lambda))), montP(lambda)}
 }
 
-func showP(p rawPt) string  { return showL(p[0]) + "," + showL(p[1]) + "," + showL(p[2]) }
-func argsP(p rawPt) string  { return showL(p[0]) + " " + showL(p[1]) + " " + showL(p[2]) }
+func showP(p rawPt) string { return showL(p[0]) + "," + showL(p[1]) + "," + showL(p[2]) }
+func argsP(p rawPt) string { return showL(p[0]) + " " + showL(p[1]) + " " + showL(p[2]) }
 
 func encCompressed(p apt) []byte {
 	if p.inf {
